@@ -1,7 +1,7 @@
 (* C01 -- compiled model computes the same function (partial). The executable semantics of the
    command stream (hw/NpuExec.v) is the formal object; statements about its scaling step. *)
 From Coq Require Import ZArith List Bool Lia.
-From VV Require Import lib.PyInt lib.PyFloat gen.GenScaling model.Scaling model.FpMath proofs.FpMathProofs
+From VV Require Import lib.PyInt lib.PyFloat gen.GenTables gen.GenScaling model.Scaling model.FpMath proofs.FpMathProofs
   proofs.ScalingProofs proofs.NpuExecProofs hw.Npu hw.NpuExec.
 Open Scope Z_scope.
 
@@ -35,6 +35,65 @@ Example requantisation_example :
   GenScaling.quantise_scale (Dy 7205759403792794 (-56)) = (1717986918, 34) /\ scale_tfl 12345 1717986918 34 = 1235 /\ MultiplyByQuantizedMultiplier 12345 1717986918 (-3) = 1235.
 Proof. repeat split; vm_compute; reflexivity. Qed.
 
+(* The output stage of convolution / depthwise / fully connected as the hardware semantics executes it
+   (hw/NpuExec.v `finish`: bias, scale in the programmed rounding mode, output zero point, activation clamp)
+   is the reference kernels' output stage  clamp (MultiplyByQuantizedMultiplier (acc + bias) M S + output_offset)
+   with the reference's own (M, S) = QuantizeMultiplier(scale), whenever Vela programmed the TFL rounding mode
+   and the pair it derived from that scale. *)
+Theorem conv_output_stage_is_reference :
+  forall r m e q s acc bias, 0 < m ->
+    rounding_mode r = 0 ->
+    GenScaling.quantise_scale (Dy m e) = (q, s) -> q <> 0 -> 0 <= s <= 62 ->
+    in32 (acc + bias) -> in32 ((acc + bias) * 2 ^ (Z.max 0 (31 - s))) ->
+    exists qt st, tfl_quantize_multiplier (Dy m e) = (qt, st) /\
+      finish r acc bias q s =
+      clampz (s16 (r0 r cmd0_NPU_SET_ACTIVATION_MIN)) (s16 (r0 r cmd0_NPU_SET_ACTIVATION_MAX))
+             (MultiplyByQuantizedMultiplier (acc + bias) qt st + s16 (r0 r cmd0_NPU_SET_OFM_ZERO_POINT)).
+Proof.
+  intros r m e q s acc bias Hm Hr Hq Hnz Hs Hx Hp.
+  destruct (requantisation_end_to_end m e q s (acc + bias) Hm Hq Hnz Hs Hx Hp) as [qt [st [Ht He]]].
+  exists qt, st. split; [exact Ht|].
+  unfold finish, apply_scale. rewrite Hr. cbn [Z.eqb]. rewrite He. reflexivity.
+Qed.
+
+(* Elementwise ADD / SUB on 8-bit operands with one operand scaled by the 32-bit OPA scale (the form Vela emits
+   whenever the input scales differ): the value the hardware semantics computes for one element (hw/NpuExec.v
+   ew_value, the function exec_elementwise maps over the output volume) is the reference AddElementwise /
+   SubElementwise value, where the reference's multiplier of the scaled operand is (q, 31 - s - 20) - the pair C09's
+   elementwise_add_sub_eq_reference_partial proves Vela's (q, s) to be - the other operand's multiplier is the
+   reference's 0.5 = (2^30, 0), and the output pair is (qo, 31 - so). *)
+Theorem elementwise_addsub_scaled_a_is_reference :
+  forall mode a b q s opb qo so,
+    mode = 1 \/ mode = 2 ->
+    -255 <= a <= 255 -> -255 <= b <= 255 -> 0 <= q <= 2147483647 -> 11 <= s <= 42 ->
+    in32 qo -> 31 <= so <= 62 ->
+    ew_value 1 mode 1 0 true q s opb qo so a b
+    = tfl_addsub (mode =? 2) a b q (31 - s - 20) 1073741824 0 qo (31 - so).
+Proof. exact NpuExecProofs.ew_addsub_opa32_is_reference. Qed.
+
+Theorem elementwise_addsub_scaled_b_is_reference :
+  forall mode a b q s opb qo so,
+    mode = 1 \/ mode = 2 ->
+    -255 <= a <= 255 -> -255 <= b <= 255 -> 0 <= q <= 2147483647 -> 11 <= s <= 42 ->
+    in32 qo -> 31 <= so <= 62 ->
+    ew_value 1 mode 2 0 true q s opb qo so a b
+    = tfl_addsub (mode =? 2) a b 1073741824 0 q (31 - s - 20) qo (31 - so).
+Proof. exact NpuExecProofs.ew_addsub_opb32_is_reference. Qed.
+
+(* Elementwise MUL: MultiplyByQuantizedMultiplier of the product with the output pair, as mul.cc *)
+Theorem elementwise_mul_is_reference :
+  forall smode a b opa opash opb qo so,
+    -255 <= a <= 255 -> -255 <= b <= 255 -> in32 qo -> 0 <= so <= 62 ->
+    in32 (a * b * 2 ^ Z.max 0 (31 - so)) ->
+    ew_value 1 0 smode 0 true opa opash opb qo so a b = MultiplyByQuantizedMultiplier (a * b) qo (31 - so).
+Proof. exact NpuExecProofs.ew_mul_is_reference. Qed.
+
+(* non-vacuity: a concrete parameter set inside the hypotheses; both sides evaluate to 54 *)
+Example elementwise_add_example :
+  ew_value 1 1 1 0 true 1717986918 12 0 1342177280 49 100 (-37) = tfl_addsub false 100 (-37) 1717986918 (-1) 1073741824 0 1342177280 (-18)
+  /\ ew_value 1 1 1 0 true 1717986918 12 0 1342177280 49 100 (-37) = 54.
+Proof. split; vm_compute; reflexivity. Qed.
+
 (* before the repair c949748 the multiplier 2^31 was kept where the reference renormalises: the TFL mode
    then differs from the reference (the witness found by trying to prove the theorem above) *)
 Theorem unrenormalised_multiplier_differs :
@@ -65,4 +124,8 @@ Qed.
 Print Assumptions scale_natural_is_round_half_up.
 Print Assumptions scale_tfl_is_reference.
 Print Assumptions requantisation_end_to_end.
+Print Assumptions conv_output_stage_is_reference.
+Print Assumptions elementwise_addsub_scaled_a_is_reference.
+Print Assumptions elementwise_addsub_scaled_b_is_reference.
+Print Assumptions elementwise_mul_is_reference.
 Print Assumptions clamp_in_range.
